@@ -36,7 +36,8 @@ Proof.
   - cbn [app takeN lenN]. now rewrite N.sub_0_r.
   - cbn [app takeN lenN]. destruct (k =? 0) eqn:E.
     + apply N.eqb_eq in E. subst k. cbn [app]. now rewrite takeN_0.
-    + apply N.eqb_neq in E. cbn [app]. rewrite IH. do 2 f_equal. lia.
+    + apply N.eqb_neq in E. cbn [app]. rewrite IH.
+      replace (N.pred k - lenN a) with (k - N.succ (lenN a)) by lia. reflexivity.
 Qed.
 
 Lemma dropN_app {A} k (a b : list A) : dropN k (a ++ b) = dropN k a ++ dropN (k - lenN a) b.
@@ -45,7 +46,8 @@ Proof.
   - cbn [app dropN lenN]. now rewrite N.sub_0_r.
   - cbn [app dropN lenN]. destruct (k =? 0) eqn:E.
     + apply N.eqb_eq in E. subst k. now rewrite dropN_0.
-    + apply N.eqb_neq in E. rewrite IH. do 2 f_equal. lia.
+    + apply N.eqb_neq in E. rewrite IH.
+      replace (N.pred k - lenN a) with (k - N.succ (lenN a)) by lia. reflexivity.
 Qed.
 
 Lemma takeN_all {A} k (l : list A) : lenN l <= k -> takeN k l = l.
@@ -92,8 +94,8 @@ Proof.
   revert s; induction a as [|c a IH]; intros s.
   - cbn [app crun]. destruct (crun s b) as [[s2 o2] r2]. reflexivity.
   - destruct (cst_final s) eqn:F.
-    + rewrite (crun_final s (c :: a) F). rewrite (crun_final s ((c :: a) ++ b) F).
-      rewrite (crun_final s ((c :: a) ++ b) F). reflexivity.
+    + rewrite (crun_final s (c :: a) F). cbv beta iota.
+      rewrite !(crun_final s ((c :: a) ++ b) F). reflexivity.
     + change ((c :: a) ++ b) with (c :: (a ++ b)). rewrite !crun_cons by exact F.
       destruct (cstep s c) as [s1 o1]. rewrite IH.
       destruct (crun s1 a) as [[sa oa] ra]. destruct (crun sa (ra ++ b)) as [[s2 o2] r2].
@@ -132,23 +134,29 @@ Qed.
 Lemma pow16_succ (k : nat) : 16 ^ N.of_nat (S k) = 16 * 16 ^ N.of_nat k.
 Proof. rewrite Nat2N.inj_succ. now rewrite N.pow_succ_r'. Qed.
 
-Lemma hex_run u : forall (fuel : nat) n rest,
-  n < 16 ^ N.of_nat fuel ->
-  (crun CSize0 (hex_digits fuel u n ++ rest) = crun (CSize n) rest) /\
-  (forall a, crun (CSize a) (hex_digits fuel u n ++ rest) =
-             crun (CSize (a * 16 ^ N.of_nat (length (hex_digits fuel u n)) + n)) rest).
+Lemma hex_run u : forall (k : nat) n rest,
+  n < 16 ^ N.of_nat (S k) ->
+  (crun CSize0 (hex_digits (S k) u n ++ rest) = crun (CSize n) rest) /\
+  (forall a, crun (CSize a) (hex_digits (S k) u n ++ rest) =
+             crun (CSize (a * 16 ^ N.of_nat (length (hex_digits (S k) u n)) + n)) rest).
 Proof.
-  induction fuel as [|k IH]; intros n rest Hn.
-  - cbn in Hn. lia.
-  - cbn [hex_digits]. destruct (n <? 16) eqn:E.
+  induction k as [|k IH]; intros n rest Hn.
+  - assert (E : n <? 16 = true) by (apply N.ltb_lt; cbn in Hn; lia).
+    cbn [hex_digits]. rewrite E. apply N.ltb_lt in E. destruct (hexdig_ok u n E) as [Hh Hv]. split.
+    + cbn [app]. rewrite (crun_step CSize0 _ _ (CSize n)); [reflexivity|reflexivity|].
+      cbn [cstep]. now rewrite Hh, Hv.
+    + intros a. cbn [app length]. rewrite (crun_step (CSize a) _ _ (CSize (a * 16 + n))); [|reflexivity|].
+      * do 2 f_equal.
+      * cbn [cstep]. now rewrite Hh, Hv.
+  - remember (S k) as k1 eqn:Hk1. cbn [hex_digits]. destruct (n <? 16) eqn:E.
     + apply N.ltb_lt in E. destruct (hexdig_ok u n E) as [Hh Hv]. split.
       * cbn [app]. rewrite (crun_step CSize0 _ _ (CSize n)); [reflexivity|reflexivity|].
         cbn [cstep]. now rewrite Hh, Hv.
       * intros a. cbn [app length]. rewrite (crun_step (CSize a) _ _ (CSize (a * 16 + n))); [|reflexivity|].
-        -- do 2 f_equal. cbn. lia.
+        -- do 2 f_equal.
         -- cbn [cstep]. now rewrite Hh, Hv.
     + apply N.ltb_ge in E. rewrite pow16_succ in Hn.
-      assert (Hq : n / 16 < 16 ^ N.of_nat k) by (apply N.div_lt_upper_bound; lia).
+      assert (Hq : n / 16 < 16 ^ N.of_nat k1) by (apply N.div_lt_upper_bound; lia).
       assert (Hm : n mod 16 < 16) by (apply N.mod_lt; lia).
       destruct (hexdig_ok u (n mod 16) Hm) as [Hh Hv].
       destruct (IH (n / 16) ([hexdig u (n mod 16)] ++ rest) Hq) as [I1 I2].
@@ -158,7 +166,7 @@ Proof.
         rewrite (crun_step (CSize (n / 16)) _ _ (CSize n)); [reflexivity|reflexivity|].
         cbn [cstep]. rewrite Hh, Hv. do 2 f_equal. lia.
       * intros a. rewrite <- app_assoc. rewrite I2. cbn [app].
-        rewrite (crun_step _ _ _ (CSize ((a * 16 ^ N.of_nat (length (hex_digits k u (n / 16))) + n / 16) * 16 + n mod 16)));
+        rewrite (crun_step _ _ _ (CSize ((a * 16 ^ N.of_nat (length (hex_digits k1 u (n / 16))) + n / 16) * 16 + n mod 16)));
           [|reflexivity|cbn [cstep]; now rewrite Hh, Hv].
         do 2 f_equal. rewrite app_length. cbn [length]. rewrite Nat.add_1_r, pow16_succ. lia.
 Qed.
@@ -298,3 +306,440 @@ Lemma pack_chunk_nil : pack_chunk [] = last_chunk.
 Proof. reflexivity. Qed.
 Lemma last_chunk_enc : last_chunk = enc_last [] (enc_trailer []).
 Proof. reflexivity. Qed.
+
+(* ====================================================================================================== *)
+(* 3. origin side: what reaches the store, for every segmentation                                          *)
+(* ====================================================================================================== *)
+Definition srv_from (f : oframing) (s : srv) (evs : list oev) : srv := fold_left (srv_step f) evs s.
+
+Lemma srv_from_app f s a b : srv_from f s (a ++ b) = srv_from f (srv_from f s a) b.
+Proof. unfold srv_from. apply fold_left_app. Qed.
+
+Lemma srv_done_stays f evs : forall s, sv_done s = true -> srv_from f s evs = s.
+Proof.
+  induction evs as [|e evs IH]; intros s H; [reflexivity|].
+  change (srv_from f s (e :: evs)) with (srv_from f (srv_step f s e) evs).
+  assert (E : srv_step f s e = s) by (unfold srv_step; now rewrite H). rewrite E. now apply IH.
+Qed.
+
+Lemma srv_from_cons f s e evs : srv_from f s (e :: evs) = srv_from f (srv_step f s e) evs.
+Proof. reflexivity. Qed.
+Lemma srv_from_nil f s : srv_from f s [] = s.
+Proof. reflexivity. Qed.
+
+(* ---- Content-Length ---- *)
+Lemma srv_len_segs n : forall segs s tail,
+  sv_done s = false -> sv_seen s <= n ->
+  let fin := srv_from (OLen n) s (map OSeg segs ++ OEof :: tail) in
+  sv_body fin = sv_body s ++ takeN (n - sv_seen s) (concat segs) /\
+  sv_whole fin = (n - sv_seen s <=? lenN (concat segs)) /\ sv_done fin = true.
+Proof.
+  induction segs as [|b segs IH]; intros s tail Hd Hs.
+  - cbn [map app concat]. rewrite srv_from_cons. unfold srv_step. rewrite Hd.
+    rewrite srv_done_stays by reflexivity. cbn [sv_body sv_whole sv_done lenN].
+    rewrite (takeN_all _ (@nil N)) by (cbn [lenN]; lia).
+    split; [now rewrite app_nil_r|]. split; [|reflexivity].
+    destruct (sv_seen s =? n) eqn:E; [apply N.eqb_eq in E|apply N.eqb_neq in E]; symmetry;
+      [apply N.leb_le|apply N.leb_gt]; lia.
+  - cbn [map app concat]. rewrite srv_from_cons. unfold srv_step. rewrite Hd.
+    set (take := takeN (n - sv_seen s) b).
+    set (s1 := {| sv_dec := sv_dec s; sv_seen := sv_seen s + lenN take; sv_body := sv_body s ++ take;
+                  sv_whole := sv_seen s + lenN take =? n; sv_done := sv_seen s + lenN take =? n |}).
+    assert (Hlt : lenN take = N.min (n - sv_seen s) (lenN b)) by apply lenN_takeN.
+    destruct (sv_seen s + lenN take =? n) eqn:E.
+    + apply N.eqb_eq in E. rewrite srv_done_stays by reflexivity.
+      cbn [sv_body sv_whole sv_done s1]. rewrite takeN_app.
+      assert (Hk : n - sv_seen s - lenN b = 0) by lia. rewrite Hk, takeN_0, app_nil_r.
+      split; [reflexivity|]. split; [|reflexivity].
+      rewrite lenN_app. symmetry. apply N.leb_le. lia.
+    + apply N.eqb_neq in E.
+      assert (Hb : lenN b < n - sv_seen s) by lia.
+      assert (Ht : take = b) by (apply takeN_all; lia).
+      destruct (IH s1 tail) as [I1 [I2 I3]]; [reflexivity|cbn [sv_seen s1]; lia|].
+      cbn zeta in I1, I2, I3. rewrite I1, I2, I3. cbn [sv_body sv_seen s1]. rewrite Ht.
+      rewrite takeN_app, (takeN_all _ b) by lia. rewrite <- app_assoc.
+      replace (n - (sv_seen s + lenN b)) with (n - sv_seen s - lenN b) by lia.
+      split; [reflexivity|]. split; [|reflexivity]. rewrite lenN_app.
+      destruct (n - sv_seen s - lenN b <=? lenN (concat segs)) eqn:L;
+        [apply N.leb_le in L; symmetry; apply N.leb_le; lia| apply N.leb_gt in L; symmetry; apply N.leb_gt; lia].
+Qed.
+
+(* enough data: complete without waiting for EOF (persistent connection), whatever follows *)
+Lemma srv_len_enough n : forall segs s tail,
+  sv_done s = false -> sv_seen s <= n -> segs <> [] -> n - sv_seen s <= lenN (concat segs) ->
+  let fin := srv_from (OLen n) s (map OSeg segs ++ tail) in
+  sv_body fin = sv_body s ++ takeN (n - sv_seen s) (concat segs) /\ sv_whole fin = true /\ sv_done fin = true.
+Proof.
+  induction segs as [|b segs IH]; intros s tail Hd Hs Hne Hl; [congruence|].
+  cbn [map app concat]. rewrite srv_from_cons. unfold srv_step. rewrite Hd.
+  set (take := takeN (n - sv_seen s) b).
+  set (s1 := {| sv_dec := sv_dec s; sv_seen := sv_seen s + lenN take; sv_body := sv_body s ++ take;
+                sv_whole := sv_seen s + lenN take =? n; sv_done := sv_seen s + lenN take =? n |}).
+  assert (Hlt : lenN take = N.min (n - sv_seen s) (lenN b)) by apply lenN_takeN.
+  destruct (sv_seen s + lenN take =? n) eqn:E.
+  - apply N.eqb_eq in E. rewrite srv_done_stays by reflexivity.
+    cbn [sv_body sv_whole sv_done s1]. rewrite takeN_app.
+    assert (Hk : n - sv_seen s - lenN b = 0) by lia. rewrite Hk, takeN_0, app_nil_r.
+    repeat split; reflexivity.
+  - apply N.eqb_neq in E.
+    assert (Hb : lenN b < n - sv_seen s) by lia.
+    assert (Ht : take = b) by (apply takeN_all; lia).
+    cbn [concat] in Hl. rewrite lenN_app in Hl.
+    assert (Hsegs : segs <> []).
+    { intros ->. cbn [concat lenN] in Hl. lia. }
+    destruct (IH s1 tail) as [I1 [I2 I3]];
+      [reflexivity|cbn [sv_seen s1]; lia|exact Hsegs|cbn [sv_seen s1]; lia|].
+    cbn zeta in I1, I2, I3. rewrite I1, I2, I3. cbn [sv_body sv_seen s1]. rewrite Ht.
+    rewrite takeN_app, (takeN_all _ b) by lia. rewrite <- app_assoc.
+    replace (n - (sv_seen s + lenN b)) with (n - sv_seen s - lenN b) by lia. auto.
+Qed.
+
+(* ---- close-delimited ---- *)
+Lemma srv_close_segs : forall segs s tail,
+  sv_done s = false ->
+  let fin := srv_from OClose s (map OSeg segs ++ OEof :: tail) in
+  sv_body fin = sv_body s ++ concat segs /\ sv_whole fin = true /\ sv_done fin = true.
+Proof.
+  induction segs as [|b segs IH]; intros s tail Hd.
+  - cbn [map app concat]. rewrite srv_from_cons. unfold srv_step. rewrite Hd.
+    rewrite srv_done_stays by reflexivity. cbn [sv_body sv_whole sv_done]. now rewrite app_nil_r.
+  - cbn [map app concat]. rewrite srv_from_cons. unfold srv_step. rewrite Hd.
+    match goal with |- context [srv_from OClose ?x _] => destruct (IH x tail) as [I1 [I2 I3]]; [reflexivity|] end.
+    cbn zeta in I1, I2, I3. rewrite I1, I2, I3. cbn [sv_body]. now rewrite <- app_assoc.
+Qed.
+
+(* ---- chunked ---- *)
+Lemma srv_chunked_segs : forall segs s tail d out rest,
+  sv_done s = false -> cst_final (sv_dec s) = false ->
+  crun (sv_dec s) (concat segs) = (d, out, rest) ->
+  let fin := srv_from OChunked s (map OSeg segs ++ OEof :: tail) in
+  sv_done fin = true /\
+  match d with
+  | CDone => sv_body fin = sv_body s ++ out /\ sv_whole fin = true
+  | CErr => sv_whole fin = false /\ exists o1 o2, out = o1 ++ o2 /\ sv_body fin = sv_body s ++ o1
+  | _ => sv_body fin = sv_body s ++ out /\ sv_whole fin = false
+  end.
+Proof.
+  induction segs as [|b segs IH]; intros s tail d out rest Hd Hf Hc.
+  - cbn [concat crun] in Hc. inversion Hc; subst d out rest. clear Hc.
+    cbn [map app]. rewrite srv_from_cons. unfold srv_step. rewrite Hd.
+    rewrite srv_done_stays by reflexivity. cbn [sv_body sv_whole sv_done]. rewrite app_nil_r.
+    split; [reflexivity|]. destruct (sv_dec s); try discriminate; auto.
+  - cbn [concat] in Hc. rewrite crun_app in Hc.
+    destruct (crun (sv_dec s) b) as [[s1 o1] r1] eqn:E1.
+    destruct (crun s1 (r1 ++ concat segs)) as [[s2 o2] r2] eqn:E2. inversion Hc; subst d out rest. clear Hc.
+    cbn [map app]. rewrite srv_from_cons. unfold srv_step. rewrite Hd, E1.
+    destruct (cst_err s1) eqn:Eerr.
+    + (* exception in this call *)
+      assert (s1 = CErr) by (destruct s1; try discriminate; reflexivity). subst s1.
+      rewrite srv_done_stays by reflexivity. cbn [sv_body sv_whole sv_done].
+      destruct (crun_final_stays _ _ _ _ _ E2 eq_refl) as [-> [-> _]].
+      split; [reflexivity|]. split; [reflexivity|]. exists [], o1. split; now rewrite app_nil_r.
+    + destruct (cst_done s1) eqn:Edone.
+      * assert (s1 = CDone) by (destruct s1; try discriminate; reflexivity). subst s1.
+        rewrite srv_done_stays by reflexivity. cbn [sv_body sv_whole sv_done].
+        destruct (crun_final_stays _ _ _ _ _ E2 eq_refl) as [-> [-> _]]. rewrite app_nil_r. auto.
+      * assert (Hnf : cst_final s1 = false) by (destruct s1; try discriminate; reflexivity).
+        assert (r1 = []) by (eapply crun_rest; eauto). subst r1. cbn [app] in E2.
+        match goal with |- context [srv_from OChunked ?x _] =>
+          destruct (IH x tail s2 o2 r2) as [I1 I2]; [reflexivity|exact Hnf|exact E2|] end.
+        cbn zeta in I1, I2. split; [exact I1|]. cbn [sv_body] in I2.
+        destruct s2; try (destruct I2 as [I2 I3]; rewrite I2, I3; now rewrite <- app_assoc).
+        destruct I2 as [I2 [p1 [p2 [Hp I3]]]]. split; [exact I2|]. exists (o1 ++ p1), p2.
+        rewrite I3, Hp. now rewrite <- !app_assoc.
+Qed.
+
+(* the same without EOF when the message is complete (persistent connection) *)
+Lemma srv_chunked_enough : forall segs s tail out rest,
+  sv_done s = false -> cst_final (sv_dec s) = false ->
+  crun (sv_dec s) (concat segs) = (CDone, out, rest) ->
+  let fin := srv_from OChunked s (map OSeg segs ++ tail) in
+  sv_done fin = true /\ sv_body fin = sv_body s ++ out /\ sv_whole fin = true.
+Proof.
+  induction segs as [|b segs IH]; intros s tail out rest Hd Hf Hc.
+  - cbn [concat crun] in Hc. inversion Hc as [[H0 H1 H2]]. rewrite H0 in Hf. discriminate.
+  - cbn [concat] in Hc. rewrite crun_app in Hc.
+    destruct (crun (sv_dec s) b) as [[s1 o1] r1] eqn:E1.
+    destruct (crun s1 (r1 ++ concat segs)) as [[s2 o2] r2] eqn:E2. inversion Hc; subst s2 out rest. clear Hc.
+    cbn [map app]. rewrite srv_from_cons. unfold srv_step. rewrite Hd, E1.
+    destruct (cst_err s1) eqn:Eerr.
+    + assert (s1 = CErr) by (destruct s1; try discriminate; reflexivity). subst s1.
+      destruct (crun_final_stays _ _ _ _ _ E2 eq_refl) as [Hx _]. discriminate.
+    + destruct (cst_done s1) eqn:Edone.
+      * assert (s1 = CDone) by (destruct s1; try discriminate; reflexivity). subst s1.
+        rewrite srv_done_stays by reflexivity. cbn [sv_body sv_whole sv_done].
+        destruct (crun_final_stays _ _ _ _ _ E2 eq_refl) as [_ [-> _]]. rewrite app_nil_r. auto.
+      * assert (Hnf : cst_final s1 = false) by (destruct s1; try discriminate; reflexivity).
+        assert (r1 = []) by (eapply crun_rest; eauto). subst r1. cbn [app] in E2.
+        match goal with |- context [srv_from OChunked ?x _] =>
+          destruct (IH x tail o2 r2) as [I1 [I2 I3]]; [reflexivity|exact Hnf|exact E2|] end.
+        cbn zeta in I1, I2, I3. cbn [sv_body] in I2. rewrite I1, I2, I3. now rewrite <- app_assoc.
+Qed.
+
+(* a strict prefix of a complete chunked body is neither complete nor malformed, and decodes to a prefix *)
+Lemma crun_strict_prefix s pre post out :
+  crun s (pre ++ post) = (CDone, out, []) -> post <> [] ->
+  exists s1 o1 o2, crun s pre = (s1, o1, []) /\ cst_final s1 = false /\ out = o1 ++ o2.
+Proof.
+  intros H Hp. rewrite crun_app in H.
+  destruct (crun s pre) as [[s1 o1] r1] eqn:E1.
+  destruct (crun s1 (r1 ++ post)) as [[s2 o2] r2] eqn:E2. inversion H; subst s2 out r2. clear H.
+  destruct (cst_final s1) eqn:F.
+  - destruct (crun_final_stays _ _ _ _ _ E2 F) as [_ [_ Hr]]. symmetry in Hr. apply app_eq_nil in Hr.
+    destruct Hr as [_ Hr]. congruence.
+  - exists s1, o1, o2. assert (r1 = []) by (eapply crun_rest; eauto). subst r1. auto.
+Qed.
+
+(* ====================================================================================================== *)
+(* 4. client side: the reference reader on what squid writes                                               *)
+(* ====================================================================================================== *)
+Lemma length_dropN_lt {A} k (l : list A) : l <> [] -> 1 <= k -> (length (dropN k l) < length l)%nat.
+Proof.
+  intros Hl Hk. assert (H := lenN_dropN k l). rewrite !lenN_length in H.
+  assert (1 <= lenN l) by (destruct l; [congruence|cbn [lenN]; lia]). rewrite lenN_length in H0. lia.
+Qed.
+
+Lemma chop_aux_ok : forall (fuel : nat) k l, 1 <= k -> (length l <= fuel)%nat ->
+  concat (chop_aux fuel k l) = l /\ Forall nonempty (chop_aux fuel k l).
+Proof.
+  induction fuel as [|f IH]; intros k l Hk Hl.
+  - destruct l; [cbn; auto|cbn in Hl; lia].
+  - cbn [chop_aux]. destruct l as [|x l]; [cbn; auto|].
+    assert (Hd : (length (dropN k (x :: l)) < length (x :: l))%nat) by (apply length_dropN_lt; [discriminate|exact Hk]).
+    destruct (IH k (dropN k (x :: l)) Hk) as [I1 I2]; [lia|].
+    split.
+    + cbn [concat]. rewrite I1. apply takeN_dropN.
+    + constructor; [|exact I2]. unfold nonempty. cbn [takeN].
+      destruct (k =? 0) eqn:E; [apply N.eqb_eq in E; lia|discriminate].
+Qed.
+
+Lemma chop_ok k l : concat (chop k l) = l /\ Forall nonempty (chop k l).
+Proof. unfold chop. apply chop_aux_ok; lia. Qed.
+
+Lemma view_len_whole n ps : lenN (concat ps) = n -> client_view (CLen n) true ps = (concat ps, true, []).
+Proof.
+  intros H. unfold client_view, client_stream, ref_read. cbn [negb].
+  rewrite takeN_all, dropN_all by lia. f_equal. f_equal. apply N.leb_le. lia.
+Qed.
+
+Lemma view_len_short n ps : lenN (concat ps) < n -> client_view (CLen n) false ps = (concat ps, false, []).
+Proof.
+  intros H. unfold client_view, client_stream, ref_read. cbn [negb].
+  rewrite takeN_all, dropN_all by lia. f_equal. f_equal. apply N.leb_gt. lia.
+Qed.
+
+Lemma view_chunked_whole ps : Forall nonempty ps -> client_view CChunked true ps = (concat ps, true, []).
+Proof.
+  intros H. unfold client_view, client_stream, ref_read. rewrite pack_chunk_nil, last_chunk_enc.
+  assert (R := chunked_roundtrip true [] ps [] [] eq_refl H eq_refl).
+  unfold enc_chunked in R. rewrite app_nil_r in R. unfold pack_chunk. rewrite R. reflexivity.
+Qed.
+
+Lemma view_chunked_short ps : Forall nonempty ps -> client_view CChunked false ps = (concat ps, false, []).
+Proof.
+  intros H. unfold client_view, client_stream, ref_read. rewrite app_nil_r.
+  unfold pack_chunk. rewrite (chunks_without_last true [] ps eq_refl H). reflexivity.
+Qed.
+
+Lemma view_close w ps : client_view CCloseDelim w ps = (concat ps, true, []).
+Proof. reflexivity. Qed.
+
+(* ====================================================================================================== *)
+(* 5. the whole relay                                                                                      *)
+(* ====================================================================================================== *)
+Lemma expecting_facts h : expecting_body h = true ->
+  h_head h = false /\ body_size h = eff_clen h.
+Proof.
+  unfold expecting_body, body_size. intros H.
+  destruct (h_head h); [discriminate|]. split; [reflexivity|].
+  destruct (h_status h =? sc_no_content); [discriminate|].
+  destruct (h_status h =? sc_not_modified); [discriminate|].
+  destruct (h_status h <? sc_okay); [discriminate|].
+  destruct (h_status h =? sc_okay); reflexivity.
+Qed.
+
+Lemma srv_run_from f evs : srv_run f evs = srv_from f srv_init evs.
+Proof. reflexivity. Qed.
+
+Theorem relay_exact_len h c11 n body extra segs tail ps :
+  h_chunked h = false -> expecting_body h = true -> h_clen h = Some n ->
+  lenN body = n -> segs <> [] -> concat segs = body ++ extra ->
+  let s := srv_run (origin_framing h) (map OSeg segs ++ tail) in
+  concat ps = sv_body s -> Forall nonempty ps ->
+  sv_body s = body /\ sv_whole s = true /\
+  client_view (client_framing h c11) (sv_whole s) ps = (body, true, []).
+Proof.
+  intros Hc He Hl Hb Hs Hcat s Hps Hne.
+  destruct (expecting_facts h He) as [Hh Hbs].
+  assert (Hf : origin_framing h = OLen n).
+  { unfold origin_framing, eff_clen. now rewrite Hc, He, Hl. }
+  assert (Hcf : client_framing h c11 = CLen n).
+  { unfold client_framing. rewrite Hh, Hbs. unfold eff_clen. now rewrite Hc, Hl, He. }
+  subst s. rewrite Hf, Hcf in *. rewrite srv_run_from in *.
+  destruct (srv_len_enough n segs srv_init tail eq_refl) as [I1 [I2 I3]];
+    [cbn [sv_seen srv_init]; lia|exact Hs|cbn [sv_seen srv_init]; rewrite Hcat, lenN_app; lia|].
+  cbn zeta in I1, I2, I3. cbn [sv_body sv_seen srv_init app] in I1. rewrite N.sub_0_r in I1.
+  rewrite Hcat, takeN_app, (takeN_all n body), N.sub_diag, takeN_0, app_nil_r in I1 by lia.
+  rewrite I1 in *. rewrite I2. repeat split; try reflexivity.
+  rewrite <- Hps. apply view_len_whole. now rewrite Hps.
+Qed.
+
+Theorem relay_exact_chunked h c11 u ext ds tr extra segs tail ps :
+  h_chunked h = true -> expecting_body h = true ->
+  ext_ok ext = true -> Forall nonempty ds -> forallb line_ok tr = true ->
+  concat segs = enc_chunked u ext ds tr ++ extra ->
+  let s := srv_run (origin_framing h) (map OSeg segs ++ tail) in
+  concat ps = sv_body s -> Forall nonempty ps ->
+  sv_body s = concat ds /\ sv_whole s = true /\
+  client_view (client_framing h c11) (sv_whole s) ps = (concat ds, true, []).
+Proof.
+  intros Hc He Hx Hd Ht Hcat s Hps Hne.
+  destruct (expecting_facts h He) as [Hh Hbs].
+  assert (Hf : origin_framing h = OChunked) by (unfold origin_framing; now rewrite Hc).
+  assert (Hcf : client_framing h c11 = if c11 then CChunked else CCloseDelim).
+  { unfold client_framing. rewrite Hh, Hbs. unfold eff_clen. now rewrite Hc. }
+  subst s. rewrite Hf, Hcf in *. rewrite srv_run_from in *.
+  assert (R := chunked_roundtrip u ext ds tr extra Hx Hd Ht). rewrite <- Hcat in R.
+  destruct (srv_chunked_enough segs srv_init tail (concat ds) extra eq_refl eq_refl R) as [I1 [I2 I3]].
+  cbn zeta in I1, I2, I3. cbn [sv_body srv_init app] in I2. rewrite I2 in *. rewrite I3.
+  repeat split; try reflexivity. rewrite <- Hps.
+  destruct c11; [now apply view_chunked_whole|apply view_close].
+Qed.
+
+Theorem relay_exact_close h c11 segs tail ps :
+  h_chunked h = false -> expecting_body h = true -> h_clen h = None ->
+  let s := srv_run (origin_framing h) (map OSeg segs ++ OEof :: tail) in
+  concat ps = sv_body s -> Forall nonempty ps ->
+  sv_body s = concat segs /\ sv_whole s = true /\
+  client_view (client_framing h c11) (sv_whole s) ps = (concat segs, true, []).
+Proof.
+  intros Hc He Hl s Hps Hne.
+  destruct (expecting_facts h He) as [Hh Hbs].
+  assert (Hf : origin_framing h = OClose).
+  { unfold origin_framing, eff_clen. now rewrite Hc, He, Hl. }
+  assert (Hcf : client_framing h c11 = if c11 then CChunked else CCloseDelim).
+  { unfold client_framing. rewrite Hh, Hbs. unfold eff_clen. now rewrite Hc, Hl. }
+  subst s. rewrite Hf, Hcf in *. rewrite srv_run_from in *.
+  destruct (srv_close_segs segs srv_init tail eq_refl) as [I1 [I2 I3]].
+  cbn zeta in I1, I2, I3. cbn [sv_body srv_init app] in I1. rewrite I1 in *. rewrite I2.
+  repeat split; try reflexivity. rewrite <- Hps.
+  destruct c11; [now apply view_chunked_whole|apply view_close].
+Qed.
+
+(* the origin closes before Content-Length bytes arrived *)
+Theorem truncation_visible_len h c11 n segs tail ps :
+  h_chunked h = false -> expecting_body h = true -> h_clen h = Some n ->
+  lenN (concat segs) < n ->
+  let s := srv_run (origin_framing h) (map OSeg segs ++ OEof :: tail) in
+  concat ps = sv_body s -> Forall nonempty ps ->
+  sv_body s = concat segs /\ sv_whole s = false /\
+  client_view (client_framing h c11) (sv_whole s) ps = (concat segs, false, []).
+Proof.
+  intros Hc He Hl Hlt s Hps Hne.
+  destruct (expecting_facts h He) as [Hh Hbs].
+  assert (Hf : origin_framing h = OLen n).
+  { unfold origin_framing, eff_clen. now rewrite Hc, He, Hl. }
+  assert (Hcf : client_framing h c11 = CLen n).
+  { unfold client_framing. rewrite Hh, Hbs. unfold eff_clen. now rewrite Hc, Hl, He. }
+  subst s. rewrite Hf, Hcf in *. rewrite srv_run_from in *.
+  destruct (srv_len_segs n segs srv_init tail eq_refl) as [I1 [I2 I3]]; [cbn [sv_seen srv_init]; lia|].
+  cbn zeta in I1, I2, I3. cbn [sv_body sv_seen srv_init app] in I1, I2. rewrite N.sub_0_r in I1, I2.
+  rewrite takeN_all in I1 by lia.
+  assert (Hw : (n <=? lenN (concat segs)) = false) by (apply N.leb_gt; lia).
+  rewrite Hw in I2. rewrite I1 in *. rewrite I2. repeat split; try reflexivity.
+  rewrite <- Hps. apply view_len_short. now rewrite Hps.
+Qed.
+
+(* the origin closes inside a chunked body: an HTTP/1.1 client gets chunks without last-chunk *)
+Theorem truncation_visible_chunked11 h u ext ds tr pre post segs tail ps :
+  h_chunked h = true -> expecting_body h = true ->
+  ext_ok ext = true -> Forall nonempty ds -> forallb line_ok tr = true ->
+  enc_chunked u ext ds tr = pre ++ post -> post <> [] -> concat segs = pre ->
+  let s := srv_run (origin_framing h) (map OSeg segs ++ OEof :: tail) in
+  concat ps = sv_body s -> Forall nonempty ps ->
+  sv_whole s = false /\ (exists rest, concat ds = sv_body s ++ rest) /\
+  client_view (client_framing h true) (sv_whole s) ps = (sv_body s, false, []).
+Proof.
+  intros Hc He Hx Hd Ht Henc Hpost Hcat s Hps Hne.
+  destruct (expecting_facts h He) as [Hh Hbs].
+  assert (Hf : origin_framing h = OChunked) by (unfold origin_framing; now rewrite Hc).
+  assert (Hcf : client_framing h true = CChunked).
+  { unfold client_framing. rewrite Hh, Hbs. unfold eff_clen. now rewrite Hc. }
+  subst s. rewrite Hf, Hcf in *. rewrite srv_run_from in *.
+  assert (R := chunked_roundtrip u ext ds tr [] Hx Hd Ht). rewrite app_nil_r, Henc in R.
+  destruct (crun_strict_prefix CSize0 pre post (concat ds) R Hpost) as [s1 [o1 [o2 [E1 [F1 Ho]]]]].
+  rewrite <- Hcat in E1.
+  destruct (srv_chunked_segs segs srv_init tail s1 o1 [] eq_refl eq_refl E1) as [I1 I2].
+  cbn zeta in I1, I2. cbn [sv_body srv_init app] in I2.
+  assert (I : sv_body (srv_from OChunked srv_init (map OSeg segs ++ OEof :: tail)) = o1 /\
+              sv_whole (srv_from OChunked srv_init (map OSeg segs ++ OEof :: tail)) = false).
+  { destruct s1; try discriminate; exact I2. }
+  destruct I as [Ib Iw]. rewrite Ib in *. rewrite Iw.
+  split; [reflexivity|]. split; [now exists o2|]. rewrite <- Hps. now apply view_chunked_short.
+Qed.
+
+(* malformed chunk framing from the origin never produces a complete message for an HTTP/1.1 client *)
+Theorem malformed_chunked_incomplete h segs tail out rest ps :
+  h_chunked h = true -> expecting_body h = true ->
+  crun CSize0 (concat segs) = (CErr, out, rest) ->
+  let s := srv_run (origin_framing h) (map OSeg segs ++ OEof :: tail) in
+  concat ps = sv_body s -> Forall nonempty ps ->
+  sv_whole s = false /\ snd (fst (client_view (client_framing h true) (sv_whole s) ps)) = false.
+Proof.
+  intros Hc He E1 s Hps Hne.
+  destruct (expecting_facts h He) as [Hh Hbs].
+  assert (Hf : origin_framing h = OChunked) by (unfold origin_framing; now rewrite Hc).
+  assert (Hcf : client_framing h true = CChunked).
+  { unfold client_framing. rewrite Hh, Hbs. unfold eff_clen. now rewrite Hc. }
+  subst s. rewrite Hf, Hcf in *. rewrite srv_run_from in *.
+  destruct (srv_chunked_segs segs srv_init tail CErr out rest eq_refl eq_refl E1) as [I1 [I2 _]].
+  cbn zeta in I1, I2. rewrite I2. split; [reflexivity|].
+  rewrite (view_chunked_short ps Hne). reflexivity.
+Qed.
+
+(* relay with the store-delivery partition of the running proxy *)
+Corollary relay_chop_partition k body : concat (chop k body) = body /\ Forall nonempty (chop k body).
+Proof. apply chop_ok. Qed.
+
+(* bodiless replies and HEAD *)
+Theorem head_reply_no_body h c11 evs k :
+  h_head h = true -> relay h c11 evs k = (CHeadOnly, ([], false)).
+Proof. intros H. unfold relay, client_framing. now rewrite H. Qed.
+
+Theorem bodiless_reply_clean h c11 tail k :
+  h_head h = false -> h_chunked h = false -> expecting_body h = false ->
+  relay h c11 (OSeg [] :: tail) k = (CNoBody, ([], false)).
+Proof.
+  intros Hh Hc He. unfold relay.
+  assert (Hf : origin_framing h = ONoBody) by (unfold origin_framing; now rewrite Hc, He).
+  assert (Hcf : client_framing h c11 = CNoBody).
+  { unfold client_framing. rewrite Hh, He. unfold body_size. rewrite Hh.
+    unfold expecting_body in He. rewrite Hh in He.
+    destruct (h_status h =? sc_okay) eqn:E.
+    - apply N.eqb_eq in E. rewrite E in He. vm_compute in He. discriminate.
+    - destruct (h_status h =? sc_no_content); [reflexivity|].
+      destruct (h_status h =? sc_not_modified); [reflexivity|].
+      destruct (h_status h <? sc_okay); [reflexivity|discriminate]. }
+  rewrite Hf, Hcf. rewrite srv_run_from, srv_from_cons. unfold srv_step at 1. cbn [sv_done srv_init].
+  rewrite srv_done_stays by reflexivity. cbn [sv_body sv_whole srv_init app]. reflexivity.
+Qed.
+
+(* ---------- refutations (witnesses are replayed against the running proxy: corpus/C01/known.jsonl) ---------- *)
+Definition w_head (st : N) (chunked : bool) : rhead :=
+  {| h_status := st; h_head := false; h_clen := None; h_chunked := chunked |}.
+(* "3\r\nabc\r\n4\r\ndefg\r\n0\r\n\r\n" cut after "3\r\nabc\r\n4\r\nde" *)
+Definition w_pre : bytes := [51;13;10;97;98;99;13;10;52;13;10;100;101].
+Definition w_post : bytes := [102;103;13;10;48;13;10;13;10].
+Definition w_ds : list bytes := [[97;98;99];[100;101;102;103]].
+
+Theorem truncation_http10_refuted :
+  enc_chunked false [] w_ds [] = w_pre ++ w_post /\ w_post <> [] /\
+  let '(cf, (stream, closed)) := relay (w_head 200 true) false [OSeg w_pre; OEof] 4096 in
+  ref_read cf stream closed = ([97;98;99;100;101], true, []) /\ [97;98;99;100;101] <> concat w_ds.
+Proof. vm_compute. repeat split; discriminate. Qed.
+
+Theorem bodiless_extra_bytes_refuted :
+  expecting_body (w_head 204 false) = false /\
+  let '(cf, (stream, closed)) := relay (w_head 204 false) true [OSeg [71;71;71]; OEof] 4096 in
+  cf = CNoBody /\ closed = false /\ ref_read cf stream closed = ([], true, [71;71;71]).
+Proof. vm_compute. repeat split. Qed.
